@@ -402,6 +402,38 @@ func checkDistance(c C17Case, o *Obs) error {
 	if len(mhA.View()) != n || len(mhB.View()) != n {
 		return fmt.Errorf("sketches are not full: %d and %d of %d", len(mhA.View()), len(mhB.View()), n)
 	}
+	// A sketch variable that is refilled (the next sample loaded into the same object): the
+	// distance is about what the sketches hold now. The replacement has the same number of
+	// k-mers (every base rotated A->C->G->T->A), so nothing but the content tells them apart.
+	{
+		rot := make([][]byte, len(a))
+		for i, s := range a {
+			rot[i] = bytes.Map(func(r rune) rune {
+				switch r {
+				case 'A', 'a':
+					return r + 2 // C, c
+				case 'C', 'c':
+					return r + 4 // G, g
+				case 'G', 'g':
+					return r + 13 // T, t
+				case 'T', 't':
+					return r - 19 // A, a
+				}
+				return r
+			}, s)
+		}
+		var dFresh, dRefilled float64
+		if p := catch(func() {
+			mhC := mash.Sequences(n, c.K, rot...)
+			dFresh = mash.Distance(mhC, mhB, c.K)
+			mash.Distance(mhA, mhB, c.K) // the call right before the refill
+			*mhA = *mash.Sequences(n, c.K, rot...)
+			dRefilled = mash.Distance(mhA, mhB, c.K)
+			*mhA = *mash.Sequences(n, c.K, a...)
+		}); p == nil && dFresh != dRefilled && !(math.IsNaN(dFresh) && math.IsNaN(dRefilled)) {
+			return fmt.Errorf("Distance(x, b) = %v after the sketch object x was refilled with another sample of the same size, but %v for a fresh sketch of that sample (seqs %q -> %q, b %q, n=%d, k=%d)", dRefilled, dFresh, c.Seqs, rot, c.Seqs2, n, c.K)
+		}
+	}
 	// reference Jaccard: shared fraction of the n smallest values of the union
 	union := map[uint64]struct{}{}
 	for h := range setA {
@@ -515,12 +547,12 @@ func exhaustiveC17(thorough bool, emit func(C17Case) bool) {
 		}
 	}
 	for _, readLen := range []int{30, 100, 151} {
-		long := realDNA(200000, readLen, true, true)
+		long := realDNA(80000, readLen, true, true)
 		var reads []gen.B
 		for at := 0; at+readLen <= len(long); at += readLen - readLen/5 {
 			reads = append(reads, gen.B(long[at:at+readLen]))
 		}
-		if !emit(C17Case{Kind: "sketch", Seqs: reads, K: 21, N: 200 + 1000*(readLen%3)*len(reads), RC: []bool{true, false, false}, CaseMode: 1, Rot: 17, Dup: 3, SplitAt: 40, Partition: []int{1, 500, 3}, N2: 20}) {
+		if !emit(C17Case{Kind: "sketch", Seqs: reads, K: 21, N: min(1<<20, 200+1000*(readLen%3)*len(reads)), RC: []bool{true, false, false}, CaseMode: 1, Rot: 17, Dup: 3, SplitAt: 40, Partition: []int{1, 500, 3}, N2: 20}) {
 			return
 		}
 	}
